@@ -348,7 +348,7 @@ const FLAVORS: [&str; 3] = ["é", "→", "💾"];
 
 /// comment kinds as in C12: 0 block, 1 line, 2 two-line block (inserted before the terminal),
 /// 3 line / 4 block comment ending the previous line (replace a line-break separator)
-const COMMENT_KINDS: [&str; 7] = ["block", "line", "mblock", "eol-line", "eol-block", "same-line", "same-line-block"];
+const COMMENT_KINDS: [&str; 8] = ["block", "line", "mblock", "eol-line", "eol-block", "same-line", "same-line-block", "block-with-lone-cr"];
 
 fn comment_text(kind: usize, second: bool, flavor: Option<&str>) -> String {
     let (a, b, c, d) = match (flavor, second) {
@@ -364,13 +364,16 @@ fn comment_text(kind: usize, second: bool, flavor: Option<&str>) -> String {
         4 => format!(" /* {} */\n", a),
         // the statement shares the previous statement's line
         5 => " ".to_string(),
-        _ => format!(" /* {} */ ", a),
+        6 => format!(" /* {} */ ", a),
+        // a carriage return that is not followed by a line feed ends a line all the same (LSP), and the only place
+        // the grammar has for it is a block comment
+        _ => format!("/* {}\r{} */", c, d),
     }
 }
 
 fn comment_dev(slot: (usize, usize), second: bool, flavor: Option<&str>) -> Dev {
     let text = comment_text(slot.1, second, flavor);
-    if slot.1 >= 3 {
+    if (3..=6).contains(&slot.1) {
         Dev::Sep(slot.0, text)
     } else {
         Dev::Insert(slot.0, text)
@@ -388,6 +391,7 @@ fn comment_slots(r: &Rendered) -> Vec<(usize, usize)> {
                 for k in 0..3 {
                     out.push((i, k));
                 }
+                out.push((i, 7));
                 if t.sep == "\n" {
                     out.push((i, 3));
                     out.push((i, 4));
@@ -669,11 +673,11 @@ fn buffers(thorough: bool, ctx: &Ctx) -> Vec<Buf> {
                     if slots[b].0 - slots[a].0 > 6 {
                         break;
                     }
-                    if slots[a].0 == slots[b].0 && (slots[a].1 >= 3) != (slots[b].1 >= 3) {
+                    if slots[a].0 == slots[b].0 && ((3..=6).contains(&slots[a].1)) != ((3..=6).contains(&slots[b].1)) {
                         // a separator replacement and an insertion at the same terminal are fine;
                         // two separator replacements are not two comments
                     }
-                    if slots[a].0 == slots[b].0 && slots[a].1 >= 3 && slots[b].1 >= 3 {
+                    if slots[a].0 == slots[b].0 && (3..=6).contains(&slots[a].1) && (3..=6).contains(&slots[b].1) {
                         continue;
                     }
                     let text = r
@@ -846,10 +850,18 @@ struct Req {
 }
 
 fn requests_for(text: &str, max_on_type: usize) -> Vec<Req> {
-    let mut out = vec![Req {
-        kind: "formatting",
-        pos: None,
-    }];
+    let mut out = vec![
+        Req {
+            kind: "formatting",
+            pos: None,
+        },
+        // the same request from an editor that is set up differently (tabSize 2, tabs): `mos format` does not know
+        // about the editor, so the answer is the same
+        Req {
+            kind: "formatting-tab2",
+            pos: None,
+        },
+    ];
     let lines = split_lines(text, LineModel::Standard);
     let mut n = 0;
     for (li, (s, e)) in lines.iter().enumerate() {
@@ -871,7 +883,7 @@ fn requests_for(text: &str, max_on_type: usize) -> Vec<Req> {
 }
 
 fn send(s: &mut Server, file: &str, r: &Req) -> Result<Value, Death> {
-    let opts = json!({"tabSize": 4, "insertSpaces": true});
+    let opts = if r.kind == "formatting-tab2" { json!({"tabSize": 2, "insertSpaces": false}) } else { json!({"tabSize": 4, "insertSpaces": true}) };
     match r.pos {
         None => s.request("textDocument/formatting", json!({"textDocument": {"uri": uri(file)}, "options": opts})),
         Some((l, c)) => s.request(
@@ -1409,7 +1421,7 @@ fn replay_case(ctx: &Ctx, case: &Value) -> i32 {
         return 0;
     }
     let req = Req {
-        kind: if case["request"] == "onTypeFormatting" { "onTypeFormatting" } else { "formatting" },
+        kind: if case["request"] == "onTypeFormatting" { "onTypeFormatting" } else if case["request"] == "formatting-tab2" { "formatting-tab2" } else { "formatting" },
         pos: case["position"]["line"].as_u64().map(|l| (l, case["position"]["character"].as_u64().unwrap_or(0))),
     };
     let req = if req.kind == "onTypeFormatting" && req.pos.is_none() {
